@@ -68,6 +68,19 @@ pub async fn verify_consecutive_append_only<TC: Configuration>(
     end_hash: Digest,
     end_epoch: u64,
 ) -> Result<(), AkdError> {
+    // The unchanged and inserted nodes together must be pairwise prefix-free. The rebuild below
+    // silently drops a node whose label equals the label of an interior node it creates, so an
+    // inserted label that extends (or equals) an unchanged node's label would make that whole
+    // unchanged sub-tree disappear from the second tree - and the proof would still verify.
+    verify_labels_prefix_free(
+        proof
+            .unchanged_nodes
+            .iter()
+            .chain(proof.inserted.iter())
+            .map(|x| x.label)
+            .collect(),
+    )?;
+
     verify_append_only_hash::<TC>(proof.unchanged_nodes.clone(), start_hash, None).await?;
 
     let mut unchanged_with_inserted_nodes = proof.unchanged_nodes.clone();
@@ -79,6 +92,38 @@ pub async fn verify_consecutive_append_only<TC: Configuration>(
 
     verify_append_only_hash::<TC>(unchanged_with_inserted_nodes, end_hash, Some(end_epoch - 1))
         .await?;
+    Ok(())
+}
+
+/// Checks that every label in the set is well-formed (at most 256 bits, no bits set beyond its
+/// length) and that no label is equal to, or a prefix of, another one. Sorted by (value, length),
+/// a label is immediately followed by its extensions, so comparing neighbours is enough.
+fn verify_labels_prefix_free(labels: Vec<crate::NodeLabel>) -> Result<(), AkdError> {
+    if labels
+        .iter()
+        .any(|label| label.label_len > 256 || label.get_prefix(label.label_len) != *label)
+    {
+        return Err(AkdError::AuditErr(AuditorError::VerifyAuditProof(
+            "The proof contains a malformed node label (longer than 256 bits, or with bits set beyond its length)".to_string(),
+        )));
+    }
+    let mut keyed = labels
+        .into_iter()
+        .map(|label| (label.get_prefix(label.label_len), label))
+        .collect::<Vec<_>>();
+    keyed.sort_by(|a, b| {
+        a.0.label_val
+            .cmp(&b.0.label_val)
+            .then(a.0.label_len.cmp(&b.0.label_len))
+    });
+    for pair in keyed.windows(2) {
+        if pair[0].1.is_prefix_of(&pair[1].1) {
+            return Err(AkdError::AuditErr(AuditorError::VerifyAuditProof(format!(
+                "The proof's nodes are not prefix-free: {} is a prefix of {}",
+                pair[0].1, pair[1].1
+            ))));
+        }
+    }
     Ok(())
 }
 
